@@ -126,17 +126,38 @@ func (r *Run) RunWorkers(n int, env ...string) int {
 			defer func() { <-sem }()
 			part := filepath.Join(dir, fmt.Sprintf("part-%d.json", i))
 			cmd := exec.Command(os.Args[0], os.Args[1:]...)
-			cmd.Env = append(os.Environ(), fmt.Sprintf("VERIF_WORKER=%d/%d", i, n), "VERIF_PART="+part, "GOMAXPROCS=2")
+			journal := filepath.Join(dir, fmt.Sprintf("journal-%d.txt", i))
+			cmd.Env = append(os.Environ(), fmt.Sprintf("VERIF_WORKER=%d/%d", i, n), "VERIF_PART="+part, "VERIF_JOURNAL="+journal, "GOMAXPROCS=2")
 			cmd.Env = append(cmd.Env, env...)
 			out, err := cmd.CombinedOutput()
 			if err != nil {
+				// a crash of the code under test (panic in a goroutine of the engine, fatal error) while a
+				// journalled case was running is a verdict about that case, not an infrastructure error
+				jb, jerr := ioutil.ReadFile(journal)
+				txt := string(out)
+				if jerr == nil && len(jb) > 0 && (strings.Contains(txt, "panic:") || strings.Contains(txt, "fatal error:")) && !strings.Contains(txt, "infrastructure error") {
+					line := "crash"
+					for _, l := range strings.Split(txt, "\n") {
+						if strings.HasPrefix(l, "panic:") || strings.HasPrefix(l, "fatal error:") {
+							line = l
+							break
+						}
+					}
+					if len(line) > 90 {
+						line = line[:90]
+					}
+					var jr interface{}
+					if json.Unmarshal(jb, &jr) != nil {
+						jr = string(jb)
+					}
+					r.Violate("process-crash:"+line, "the engine crashed the process: "+line, map[string]interface{}{"kind": "crash", "case": jr, "output_tail": tailOf(txt, 1500)})
+					r.Cap(fmt.Sprintf("worker %d crashed; the rest of its shard was not explored", i))
+					ioutil.WriteFile(part, []byte("{}"), 0644)
+					return
+				}
 				atomic.AddInt32(&failed, 1)
 				fmu.Lock()
-				tail := string(out)
-				if len(tail) > 3000 {
-					tail = tail[len(tail)-3000:]
-				}
-				failMsgs = append(failMsgs, fmt.Sprintf("worker %d/%d: %v\n%s", i, n, err, tail))
+				failMsgs = append(failMsgs, fmt.Sprintf("worker %d/%d: %v\n%s", i, n, err, tailOf(txt, 3000)))
 				fmu.Unlock()
 			}
 		}(i)
@@ -194,4 +215,22 @@ func (r *Run) RunWorkers(n int, env ...string) int {
 	}
 	r.extra["worker_processes"] = n
 	return r.Finish()
+}
+
+func tailOf(s string, n int) string {
+	if len(s) > n {
+		return s[len(s)-n:]
+	}
+	return s
+}
+
+// Journal records the case a worker process is about to run, so that a crash of the process can be
+// attributed to it by the parent.
+func Journal(v interface{}) {
+	p := os.Getenv("VERIF_JOURNAL")
+	if p == "" {
+		return
+	}
+	b, _ := json.Marshal(v)
+	ioutil.WriteFile(p, b, 0644)
 }
